@@ -118,4 +118,14 @@ CHECKS["C17"] = {"text": "Model/Backward.v mirrors the structural part of backwa
     "note": COMMON_NOTE + " PARTIAL: the run-level statement 'logs of a successful backward run keep one entry per step' is C08's theorem for the inner run plus list reversal; reverse_log_information itself "
     "(rev on every log) is searched, not modelled. Object identity of list objects is outside the model (searched).",
     "technique": "Coq proof (exact-list invariant for helper insertion/removal in any order, involutive reversal; FS log order by C01 invariant over the C08 ghost history) + vm_compute correspondence of the structure before/inside/after + oracle with injected exceptions"}
+CHECKS["C16"] = {"text": "harness/schema.py translates the save format of the CURRENT source into coq/Gen/Schema.v on every run (fail-closed Python-ast translator): per class the keys written by "
+    "export_dict_json_data / write_simple_json with the shape of each value expression, the constructor arguments read back in read_json_data / read_simple_json with the shape of each conversion, the attribute each "
+    "constructor parameter is stored in, and the ID->object relinking pass. Proved: a schema accepted by schema_ok round-trips (export (import (export o)) = export o, same keys in the same order) for ANY object and "
+    "ANY conversions satisfying write(read(write v)) = write v per compatible shape pair; the schema generated from the current source is accepted for all 11 saved classes (vm_compute over the finite schema, stated "
+    "as a forallb theorem); every constructor parameter outside an explicit exempt list (back references, additional-work / quality / error bookkeeping read by no base-class method) is read from the file and every "
+    "key read is written. The translator is tied to the running code by comparing the keys of every node of every saved document with the generated schema. Reference resolution, value-for-value equality of real files "
+    "at four life stages, re-simulation of the restored project and 'writing never fails' are searched by the oracle.",
+    "note": COMMON_NOTE + " PARTIAL: the per-shape conversion law (e.g. BaseTaskState(int(s)) = s, get_task_list(ID=t.ID)[0] is t for unique IDs) is a Section hypothesis of the theorem, exercised by the oracle's "
+    "write/read/write comparison, not proved about Python; re-simulation equality (c) is the oracle plus C09/C15 on the model side.",
+    "technique": "Coq proof over a schema regenerated from the source by a Python-ast translator (generic round-trip theorem + vm_compute acceptance of the generated schema) + schema/runtime key correspondence + round-trip oracle at four life stages"}
 NOT_APPLICABLE = {}
